@@ -35,9 +35,34 @@ def gen_config(rng):
     vars_ = []
     for i in range(rng.choice([0, 0, 1, 2])):
         vars_.append({"name": f"v{i}", "default": rng.choice([1, 0.5, True, False, "left", 3]), "prefix": rng.random() < 0.7})
-    return {"dyadic": dyadic, "states": states, "first": rng.choice(names[:2]), "vars": vars_,
+    family = None
+    timed_names = [x["name"] for x in states if x["kind"] == "timed"]
+    if rng.random() < 0.25:
+        # a family of modes: Mode2 derives from Mode and redefines some state functions (other successor, other signature)
+        over = {}
+        for x in states:
+            if rng.random() < 0.4:
+                over[x["name"]] = {"sig": rng.choice(ALL_SIGS), "next": (rng.choice(names + [None]) if x["kind"] == "timed" else None)}
+        family = {"over": over, "run_derived": rng.random() < 0.6, "other_when": rng.choice(["before", "after", "after"])}
+    return {"dyadic": dyadic, "states": states, "first": rng.choice(names[:2]), "vars": vars_, "family": family,
             "mode_name": rng.choice(["Drive Forward", "M", "two_ball"]),
             "boot_us": (rng.choice([0, 64, 64000]) * GRID_US) if dyadic else rng.choice([0, 33333, 7_000_001])}
+
+
+def effective(cfg):
+    """The configuration of the class whose instance is run (redefinitions of the derived mode applied)."""
+    fam = cfg.get("family")
+    if not fam or not fam["run_derived"]:
+        return dict(cfg, run_cls="Mode")
+    sts = []
+    for st in cfg["states"]:
+        o = fam["over"].get(st["name"])
+        if o:
+            st = dict(st, sig=o["sig"], tag="Mode2")
+            if st["kind"] == "timed":
+                st["next"] = o["next"]
+        sts.append(st)
+    return dict(cfg, states=sts, mode_name=cfg["mode_name"] + " v2", run_cls="Mode2")
 
 
 def generate(seed, prop, tier, index=0):
@@ -46,7 +71,7 @@ def generate(seed, prop, tier, index=0):
         return robot.generate_integration(seed, prop, tier, index)
     rng = random.Random(seed)
     cfg = gen_config(rng)
-    model = SAModel(cfg, exact=cfg["dyadic"])
+    model = SAModel(effective(cfg), exact=cfg["dyadic"])
     dy = cfg["dyadic"]
     g = GRID_US if dy else 1
     names = [s["name"] for s in cfg["states"]]
@@ -124,7 +149,22 @@ def build_source(cfg):
             deco = f"@state(first={first})" if first else "@state"
         args = ", ".join(["self"] + st["sig"])
         d = "{" + ", ".join(f"{a!r}: {a}" for a in st["sig"]) + "}"
-        L += [f"    {deco}", f"    def {st['name']}({args}):", f"        self._sim.call(self, {st['name']!r}, {d})"]
+        L += [f"    {deco}", f"    def {st['name']}({args}):", f"        self._sim.call(self, {st['name']!r}, {d}, 'Mode')"]
+    fam = cfg.get("family")
+    if fam:
+        L += ["", "class Mode2(Mode):", f"    MODE_NAME = {cfg['mode_name'] + ' v2'!r}"]
+        for st in cfg["states"]:
+            o = fam["over"].get(st["name"])
+            if not o:
+                continue
+            first = st["name"] == cfg["first"]
+            if st["kind"] == "timed":
+                deco = f"@timed_state(duration={st['duration']!r}, next_state={o['next']!r}, first={first})"
+            else:
+                deco = f"@state(first={first})" if first else "@state"
+            args = ", ".join(["self"] + o["sig"])
+            d = "{" + ", ".join(f"{a!r}: {a}" for a in o["sig"]) + "}"
+            L += [f"    {deco}", f"    def {st['name']}({args}):", f"        self._sim.call(self, {st['name']!r}, {d}, 'Mode2')"]
     return "\n".join(L) + "\n"
 
 
@@ -134,9 +174,9 @@ class _H:
         self.events = []
         self.act = None
 
-    def call(self, inst, name, args):
+    def call(self, inst, name, args, tag="Mode"):
         act, self.act = self.act, None
-        self.events.append(("CALL", name, dict(args), list(act) if act else None))
+        self.events.append(("CALL", name, dict(args), list(act) if act else None, tag))
         if act:
             if act[0] == "next" and hasattr(type(inst), str(act[1])):
                 inst.next_state(act[1])
@@ -156,16 +196,27 @@ def execute(plan, trace=False):
     from simkit import world
     from robotpy_ext.autonomous import StatefulAutonomous, state, timed_state
     ntcore = world.ntcore
-    cfg, prop = plan["config"], plan["property"]
-    exact = cfg["dyadic"]
-    world.goto(cfg["boot_us"])
+    cfg0, prop = plan["config"], plan["property"]
+    exact = cfg0["dyadic"]
+    world.goto(cfg0["boot_us"])
     clk = world.SimClock()
-    src = build_source(cfg)
+    src = build_source(cfg0)
+    cfg = effective(cfg0)
+    fam = cfg0.get("family")
     ns = {"StatefulAutonomous": StatefulAutonomous, "state": state, "timed_state": timed_state}
     exec(compile(src, "<generated mode>", "exec"), ns)
-    Mode = ns["Mode"]
     H = _H(world)
-    Mode._sim = H
+    ns["Mode"]._sim = H
+    Mode = ns[cfg["run_cls"]]
+    Other = ns["Mode2" if cfg["run_cls"] == "Mode" else "Mode"] if fam else None
+    others = []
+
+    def make_other():
+        # another class of the same family comes to life (e.g. the selector instantiates every mode)
+        others.append(Other())
+        for v in cfg["vars"]:
+            if not v["prefix"]:
+                model.dash[v["name"]] = v["default"] if isinstance(v["default"], (bool, str)) else float(v["default"])
     nt = ntcore.NetworkTableInstance.getDefault()
     sdef = {s["name"]: s for s in cfg["states"]}
     vdef = {v["name"]: v for v in cfg["vars"]}
@@ -189,7 +240,12 @@ def execute(plan, trace=False):
         pubs[key].set(value)
 
     model = SAModel(cfg, exact=exact)
+    if fam and fam["other_when"] == "before":
+        make_other()
     inst = Mode()
+    model.construct()
+    if fam and fam["other_when"] == "after":
+        make_other()
     keys = [s["name"] + "_duration" for s in cfg["states"] if s["kind"] == "timed"] + [v["name"] for v in cfg["vars"]]
     for k in keys:
         subs[k] = topic(k).genericSubscribe()
@@ -223,6 +279,8 @@ def execute(plan, trace=False):
                     if not in_period:
                         model.construct()
                         inst = Mode()
+                        if fam and fam["other_when"] == "after":
+                            make_other()
                         ever = False
                         faults["second_instance"] = faults.get("second_instance", 0) + 1
                 elif k == "enable":
@@ -318,6 +376,8 @@ def _cmp_iter(sdef, mev, iev, exact):
     for me, ie in zip(mc, ic):
         _, name, tm, stm, initial = me
         args = ie[2]
+        if len(ie) > 4 and ie[4] != sdef[name].get("tag", "Mode"):
+            return ("calls", f"{name}: the definition in class {ie[4]} ran, the running mode's own definition is in {sdef[name].get('tag', 'Mode')}")
         if set(args) != set(sdef[name]["sig"]):
             return ("args", f"{name} declared {sdef[name]['sig']} received {sorted(args)}")
         if "initial_call" in args and args["initial_call"] is not initial:
